@@ -1,4 +1,5 @@
 import Txtpp.Lemmas.SinkFacts
+import Txtpp.Lemmas.Hermetic
 /-!
 # Property C09 — `--needed` equals a normal build and rewrites nothing that is unchanged
 -/
@@ -33,5 +34,15 @@ theorem temp_no_touch (cfg : Cfg) (wd : Path) (src : List Char) (fs : FS) (t c :
 theorem temp_updates_stale (cfg : Cfg) (wd : Path) (src : List Char) (fs fs' : FS) (t c : List Char)
     (h : (fileWorld cfg wd src).writeTemp fs t c = some fs') :
     ∃ p, fs.resolve cfg wd t = some p ∧ fs'.file? p = some (encodeUtf8 c) := writeTemp_result cfg wd src fs fs' t c h
+
+/-- Project level: what a pass computes (`render`) does not depend on the mode, only the way the
+result reaches the disk does; so a successful needed-build and a successful normal build — from
+whatever was on disk, under any schedules — finish the same files with the same contents. -/
+theorem needed_run_eq_build_run {C : Type} (w : Coord.World) (R : Coord.Sem C) (hR : Coord.RenderLocal w R)
+    (inputs : List Coord.File) (out0 out0' : Coord.File → Coord.OutState C) (x x' : Coord.WSt C)
+    (h : Coord.WReach w R inputs out0 x) (h' : Coord.WReach w R inputs out0' x')
+    (hq : x.st.pool = []) (hno : ¬ Coord.Leftover x.st) (hq' : x'.st.pool = []) (hno' : ¬ Coord.Leftover x'.st) :
+    (∀ f, f ∈ x.st.dm.fin ↔ f ∈ x'.st.dm.fin) ∧ ∀ f ∈ x.st.dm.fin, x.outp f = x'.outp f :=
+  Coord.hermetic w R hR inputs out0 out0' x x' h h' hq hno hq' hno'
 
 end C09
